@@ -109,6 +109,8 @@ func main() {
 			n = 8
 		}
 		os.Exit(harness.Selftest(ps, seed, n))
+	case "execplan":
+		os.Exit(harness.ExecPlanFile(*file))
 	case "replay":
 		os.Exit(harness.Replay(*file))
 	default:
